@@ -378,6 +378,10 @@ class annotate(object):
         func.__signature__ = sig
         for pok in reversed(poks):
             pok._prepare()
+            for bound_ref in list(pok.insts.values()):
+                bound = bound_ref()
+                if bound is not None and bound is not pok:
+                    bound._prepare()
         return obj
 
     def __repr__(self):
